@@ -1371,6 +1371,11 @@ func (self *Analyzer) ifExpression(node pAst.IfExpression) ast.AnalyzedIfExpress
 		} else {
 			resultType = elseBlock.ResultType
 
+			// A bare `none` says nothing about the inner type of the option, the other branch does.
+			if isNonePlaceholderOption(elseBlock.ResultType) && thenBlock.ResultType.Kind() == ast.OptionTypeKind {
+				resultType = thenBlock.ResultType
+			}
+
 			// only if both branches return `never`, use `never`
 			if thenBlock.ResultType.Kind() == ast.NeverTypeKind {
 				resultType = elseBlock.ResultType.SetSpan(node.Range)
@@ -1597,6 +1602,11 @@ func (self *Analyzer) tryExpression(node pAst.TryExpression) ast.AnalyzedTryExpr
 		}
 	} else {
 		resultType = tryBlock.ResultType.SetSpan(node.Range)
+
+		// A bare `none` says nothing about the inner type of the option, the other branch does.
+		if isNonePlaceholderOption(tryBlock.ResultType) && catchBlock.ResultType.Kind() == ast.OptionTypeKind {
+			resultType = catchBlock.ResultType.SetSpan(node.Range)
+		}
 	}
 
 	if err := self.TypeCheck(catchBlock.ResultType, tryBlock.ResultType, TypeCheckOptions{
